@@ -989,6 +989,44 @@ func ruleCodecThresholds(e *Engine, r *Report, minInst int, pkg string, pairs []
 				}
 			}
 		})
+		// fields handed to a same-package helper that does the switch on its parameter
+		forEachCall(fn, func(c ssa.CallInstruction) {
+			g := c.Common().StaticCallee()
+			if g == nil || fnPkg(g) != fnPkg(fn) || g == fn || len(g.Blocks) == 0 {
+				return
+			}
+			for ai, a := range c.Common().Args {
+				f, _, ok := loadedField(stripConv(a))
+				if !ok || ai >= len(g.Params) {
+					continue
+				}
+				p := g.Params[ai]
+				forEachInstr(g, func(in ssa.Instruction) {
+					b, ok := in.(*ssa.BinOp)
+					if !ok || cmpString(b.Op) == "" {
+						return
+					}
+					var k *ssa.Const
+					var other ssa.Value
+					if kk, ok := b.Y.(*ssa.Const); ok {
+						k, other = kk, b.X
+					} else if kk, ok := b.X.(*ssa.Const); ok {
+						k, other = kk, b.Y
+					}
+					if k == nil {
+						return
+					}
+					if v, ok := constantUint64(k); !ok || v < 1<<32 {
+						return
+					}
+					if e.dependsOn(other, func(v ssa.Value) bool { return v == ssa.Value(p) }, 0) {
+						if _, exists := out[f.Name()]; !exists {
+							out[f.Name()] = k.Value.ExactString()
+						}
+					}
+				})
+			}
+		})
 		return out
 	}
 	for _, pr := range pairs {
